@@ -47,7 +47,7 @@ Section Laws.
     rl_add_mono : forall x w w', ok x -> ok w -> ok w' -> leW w w' -> leW (add x w) (add x w');
     rl_sub_anti : forall x w w', ok x -> ok w -> ok w' -> leW w w' -> leW (sub x w') (sub x w);
     (* closure of the admitted values *)
-    rl_add_ok : forall x w, ok x -> ok w -> ok (add x w);
+    rl_add_ok : forall M m w, ok M -> ok m -> ok w -> ltb w (sub M m) = true -> ok (add m w);
     rl_sub_ok : forall M m w, ok M -> ok m -> ok w -> ltb w (sub M m) = true -> ok (sub M w);
     rl_gap_ok : forall M m, ok M -> ok m -> leW m M -> ok (sub M m);
     rl_sub_self : forall x, ok x -> ltb (w_zero A) (sub x x) = false;
@@ -215,7 +215,7 @@ Section Measure.
     assert (Hg : ok (sub M m)) by (apply (rl_gap_ok A ok rank RL); auto).
     set (M' := sub M w) in *. set (m' := add m w) in *.
     assert (HM' : ok M') by (apply (rl_sub_ok A ok rank RL M m w); auto).
-    assert (Hm' : ok m') by (apply (rl_add_ok A ok rank RL); auto).
+    assert (Hm' : ok m') by (apply (rl_add_ok A ok rank RL M m w); auto).
     assert (B1 : leW A M' M) by (apply (rl_sub_le A ok rank RL); auto).
     assert (B2 : leW A m M') by (apply (rl_within_sub A ok rank RL M m w); auto).
     assert (B3 : leW A m m') by (apply (rl_add_ge A ok rank RL); auto).
@@ -292,7 +292,7 @@ Section Measure.
       apply negb_true_iff in Q1, Q2.
       assert (Hw'ok : ok w') by (rewrite Forall_forall in Hws; auto).
       assert (Os : ok (sub M w')) by (apply (rl_sub_ok A ok rank RL M m w'); auto).
-      assert (Oa : ok (add m w')) by (apply (rl_add_ok A ok rank RL); auto).
+      assert (Oa : ok (add m w')) by (apply (rl_add_ok A ok rank RL M m w'); auto).
       apply Hneq. apply leW_antisym; auto.
       destruct (ltb w' w) eqn:Ew.
       + pose proof (rl_sub_anti A ok rank RL M w' w HM Hw'ok Hwok (ltb_leW w' w Hw'ok Hwok Ew)) as Hmon.
@@ -685,3 +685,253 @@ Section Loop.
       intro C. subst r. exact (vb_stepW_not_oof crit s1 E).
   Qed.
 End Loop.
+
+(* ====================================================================== *)
+(* Part 3: the entry point, and the two instances                           *)
+(* ====================================================================== *)
+
+Section Entry.
+  Variable A : arith.
+  Variable ok : W A -> Prop.
+  Variable rank : W A -> Z.
+  Hypothesis RL : round_laws A ok rank.
+  Notation Wt := (W A).
+  Let OL := rl_order A ok rank RL.
+
+  (* the initial part loads: their length needs no law; that they are admitted values ("the sums do not
+     overflow") follows from closure of + where it holds (integers), and is a premise otherwise *)
+  Lemma fold_loadW_len : forall (ws : list Wt) (p : list N) acc L,
+    fold_loadW A ws p acc = Ok L -> length L = length acc.
+  Proof.
+    induction ws as [|w ws IH]; intros [|x p] acc L H; cbn [fold_loadW] in H; try (injection H as <-; auto).
+    destruct (nth_opt acc (N.to_nat x)) as [a|]; [|discriminate].
+    apply IH in H. now rewrite set_nth_length in H.
+  Qed.
+  Lemma zip_addW_len : forall l r : list Wt, length (zip_addW A l r) = length l.
+  Proof. induction l as [|x l IH]; intros [|y r]; cbn [zip_addW length]; auto. Qed.
+  Lemma parts_loadW_len ws p k L : parts_loadW A ws p k = Ok L -> length L = k.
+  Proof.
+    intros H. unfold parts_loadW in H. destruct (Nat.ltb _ 2).
+    - apply fold_loadW_len in H. now rewrite repeat_length in H.
+    - destruct (fold_loadW A (firstn _ ws) _ _) as [l| | |] eqn:E1; cbn [bind] in H; try discriminate.
+      destruct (fold_loadW A (skipn _ _) _ _) as [r| | |] eqn:E2; cbn [bind] in H; try discriminate.
+      injection H as <-. rewrite zip_addW_len. apply fold_loadW_len in E1. now rewrite repeat_length in E1.
+  Qed.
+
+  Section Closed.
+  Hypothesis AC : add_closed A ok.
+
+  Lemma fold_loadW_ok : forall (ws : list Wt) (p : list N) acc L, Forall ok ws -> Forall ok acc ->
+    fold_loadW A ws p acc = Ok L -> length L = length acc /\ Forall ok L.
+  Proof.
+    induction ws as [|w ws IH]; intros [|x p] acc L Hw Ha H; cbn [fold_loadW] in H; try (injection H as <-; auto).
+    destruct (nth_opt acc (N.to_nat x)) as [a|] eqn:E; [|discriminate].
+    inversion Hw as [|? ? Hw0 Hwt]; subst.
+    assert (Hok_a : ok a) by (rewrite Forall_forall in Ha; apply Ha; eapply nth_opt_In; eauto).
+    destruct (IH p _ L Hwt (Forall_set_nth ok acc (N.to_nat x) _ Ha (AC a w Hok_a Hw0)) H) as [H1 H2].
+    rewrite set_nth_length in H1. auto.
+  Qed.
+
+  Lemma zip_addW_ok : forall l r : list Wt, Forall ok l -> Forall ok r ->
+    length (zip_addW A l r) = length l /\ Forall ok (zip_addW A l r).
+  Proof.
+    induction l as [|x l IH]; intros [|y r] Hl Hr; cbn [zip_addW length]; auto.
+    inversion Hl as [|? ? Hx Hl']; subst. inversion Hr as [|? ? Hy Hr']; subst. destruct (IH r Hl' Hr') as [E1 E2]. split; [lia|].
+    constructor; auto.
+  Qed.
+
+  Lemma In_firstn_l (l : list Wt) : forall n x, In x (firstn n l) -> In x l.
+  Proof.
+    induction l as [|y t IH]; intros [|n] x; cbn [firstn In]; try tauto.
+    intros [->|H]; [now left|right; eapply IH; eauto].
+  Qed.
+  Lemma In_skipn_l (l : list Wt) : forall n x, In x (skipn n l) -> In x l.
+  Proof.
+    induction l as [|y t IH]; intros [|n] x; cbn [skipn In]; try tauto.
+    intros H. right. eapply IH; eauto.
+  Qed.
+  Lemma Forall_firstn_ok (l : list Wt) n : Forall ok l -> Forall ok (firstn n l).
+  Proof. intros H. rewrite Forall_forall in *. intros x Hx. apply H. eapply In_firstn_l; eauto. Qed.
+  Lemma Forall_skipn_ok (l : list Wt) n : Forall ok l -> Forall ok (skipn n l).
+  Proof. intros H. rewrite Forall_forall in *. intros x Hx. apply H. eapply In_skipn_l; eauto. Qed.
+
+  Lemma parts_loadW_ok ws p k L : Forall ok ws -> parts_loadW A ws p k = Ok L -> length L = k /\ Forall ok L.
+  Proof.
+    intros Hw H. unfold parts_loadW in H.
+    assert (Hz : Forall ok (repeat (w_zero A) k)).
+    { apply Forall_forall. intros x Hx. apply repeat_spec in Hx. subst. apply (zero_ok A ok OL). }
+    destruct (Nat.ltb (Nat.min (length ws) (length p)) 2).
+    - destruct (fold_loadW_ok _ _ _ _ Hw Hz H) as [H1 H2]. rewrite repeat_length in H1. auto.
+    - destruct (fold_loadW A (firstn _ ws) _ _) as [l| | |] eqn:E1; cbn [bind] in H; try discriminate.
+      destruct (fold_loadW A (skipn _ _) _ _) as [r| | |] eqn:E2; cbn [bind] in H; try discriminate.
+      injection H as <-.
+      destruct (fold_loadW_ok _ _ _ _ (Forall_firstn_ok _ _ Hw) Hz E1) as [A1 A2].
+      destruct (fold_loadW_ok _ _ _ _ (Forall_skipn_ok _ _ (Forall_firstn_ok _ _ Hw)) Hz E2) as [B1 B2].
+      destruct (zip_addW_ok l r A2 B2) as [C1 C2]. rewrite repeat_length in A1. split; [lia|exact C2].
+  Qed.
+
+  End Closed.
+
+  Lemma fold_loadW_not_oof : forall (ws : list Wt) (p : list N) acc, fold_loadW A ws p acc <> OutOfFuel.
+  Proof.
+    induction ws as [|w ws IH]; intros [|x p] acc; cbn [fold_loadW]; try discriminate.
+    destruct (nth_opt acc (N.to_nat x)); [apply IH|discriminate].
+  Qed.
+  Lemma parts_loadW_not_oof ws p k : parts_loadW A ws p k <> OutOfFuel.
+  Proof.
+    unfold parts_loadW. destruct (Nat.ltb _ 2); [apply fold_loadW_not_oof|].
+    destruct (fold_loadW A (firstn _ ws) _ _) as [l| | |] eqn:E1; cbn [bind]; try discriminate.
+    - destruct (fold_loadW A (skipn _ _) _ _) as [r| | |] eqn:E2; cbn [bind]; try discriminate.
+      exfalso. exact (fold_loadW_not_oof _ _ _ E2).
+    - exfalso. exact (fold_loadW_not_oof _ _ _ E1).
+  Qed.
+
+  (* VnBest with the progress test never runs out of fuel once the fuel exceeds the measure of the
+     initial state: the bound is symbolic and huge (about rank(max load)^2 * k^2 * n) *)
+  Theorem vn_bestW_terminates : forall ws p, Forall ok ws ->
+    (forall L, parts_loadW A ws p (part_count p) = Ok L -> Forall ok L) ->
+    exists fuel0, forall fuel, (fuel0 <= fuel)%nat -> vn_bestW A true fuel ws p <> OutOfFuel.
+  Proof.
+    intros ws p Hw HL0. unfold vn_bestW. set (k := part_count p).
+    destruct (negb (Nat.eqb (length ws) (length p))); [exists 0%nat; discriminate|].
+    destruct (existsb _ ws); [exists 0%nat; discriminate|].
+    destruct (Nat.eqb (length p) 0 || forallb (w_is_zero A) ws || Nat.ltb k 2) eqn:Ee; [exists 0%nat; discriminate|].
+    apply orb_false_iff in Ee as [_ Ek]. apply Nat.ltb_ge in Ek.
+    destruct (parts_loadW A ws p k) as [L| | |] eqn:EL; cbn [bind]; try (exists 0%nat; discriminate);
+      [|exfalso; exact (parts_loadW_not_oof _ _ _ EL)].
+    pose proof (parts_loadW_len ws p k L EL) as HL. pose proof (HL0 L EL) as Hok.
+    set (R := rank (maxW A L)).
+    assert (HI : INV A ok rank k (length p) R (p, L, 0%N)).
+    { split; [|split; [reflexivity|split; [lia|unfold R; lia]]].
+      split; [exact HL|]. split; [exact Hok|].
+      apply Forall_forall. intros x Hx. apply maxN_ge in Hx. unfold k, part_count. lia. }
+    exists (S (Z.to_nat (mu A rank ws k (length p) R (p, L, 0%N)))). intros fuel Hf.
+    destruct (vb_loopW_terminates A ok rank RL ws k Hw (length p) R p L HI fuel) as [r [Hr Hne]].
+    - destruct (Z.le_gt_cases 0 (mu A rank ws k (length p) R (p, L, 0%N))); lia.
+    - rewrite Hr. exact Hne.
+  Qed.
+End Entry.
+
+(* ---------------- the integers satisfy the laws ---------------- *)
+
+Definition okZnn (x : Z) : Prop := 0 <= x.
+
+Lemma Z_round_laws : round_laws Zarith okZnn (fun x => x).
+Proof.
+  constructor; unfold okZnn, leW; cbn [Zarith W w_ltb w_add w_sub w_zero]; intros;
+    repeat match goal with
+           | H : (_ <? _) = true |- _ => apply Z.ltb_lt in H
+           | H : (_ <? _) = false |- _ => apply Z.ltb_ge in H
+           end; try (apply Z.ltb_ge); try lia.
+  constructor; cbn [Zarith W w_ltb w_eqb w_zero]; intros;
+    repeat match goal with
+           | H : (_ <? _) = true |- _ => apply Z.ltb_lt in H
+           | H : (_ <? _) = false |- _ => apply Z.ltb_ge in H
+           end; try (apply Z.ltb_ge); try (apply Z.ltb_irrefl); try lia.
+Qed.
+
+(* VnBest (with the progress test) on non-negative integers, in the generic model with plain fuel *)
+Theorem vn_bestW_Z_terminates : forall ws p, Forall (fun w => 0 <= w) ws ->
+  exists fuel0, forall fuel, (fuel0 <= fuel)%nat -> vn_bestW Zarith true fuel ws p <> OutOfFuel.
+Proof.
+  intros ws p Hw. apply (vn_bestW_terminates Zarith okZnn (fun x => x) Z_round_laws ws p Hw).
+  intros L HL. apply (parts_loadW_ok Zarith okZnn (fun x => x) Z_round_laws) with (ws := ws) (p := p) (k := part_count p); auto.
+  intros x y Hx Hy. unfold okZnn in *. cbn. lia.
+Qed.
+
+(* ---------------- binary64 ---------------- *)
+From Coupe Require Import Lib.SFloat.
+From Coq Require Import Floats.SpecFloat.
+
+(* the admitted values: +0 and the positive FINITE binary64 numbers (mantissa below 2^53, exponent in range) *)
+Definition okV (x : spec_float) : Prop :=
+  match x with
+  | S754_zero s => s = false
+  | S754_finite s m e => s = false /\ Zpos m < 2 ^ 53 /\ -1074 <= e <= 971
+  | _ => False
+  end.
+(* their position in the order, as an integer: the order of the values is the order of (exponent, mantissa) *)
+Definition rankV (x : spec_float) : Z :=
+  match x with
+  | S754_finite _ m e => 1 + (e + 1074) * 2 ^ 53 + Zpos m
+  | _ => 0
+  end.
+
+Lemma okV_okF x : okV x -> okF x.
+Proof. destruct x; cbn; tauto. Qed.
+
+Lemma F64_order_laws_V : order_laws F64arith okV.
+Proof.
+  pose proof F64_order_laws as [L1 L2 L3 L4 L5 L6].
+  constructor.
+  - intros x Hx. apply L1. now apply okV_okF.
+  - intros x y Hx Hy. apply L2; now apply okV_okF.
+  - intros x y z Hx Hy Hz. apply L3; now apply okV_okF.
+  - intros x y Hx Hy. apply L4; now apply okV_okF.
+  - intros x y Hx Hy. apply L5; now apply okV_okF.
+  - reflexivity.
+Qed.
+
+Lemma rankV_nonneg x : okV x -> 0 <= rankV x.
+Proof. destruct x as [s|s| |s m e]; cbn [okV rankV]; lia. Qed.
+
+Lemma rankV_mono x y : okV x -> okV y -> SFltb x y = true -> rankV x < rankV y.
+Proof.
+  intros Hx Hy H. apply (SFltb_rank x y (okV_okF x Hx) (okV_okF y Hy)) in H.
+  destruct x as [sx|sx| |sx mx ex], y as [sy|sy| |sy my ey]; cbn [okV rankV rankF lex3] in *; try tauto; try lia.
+Qed.
+
+Lemma okV_nonneg x : okV x -> SFltb x (S754_zero false) = false.
+Proof.
+  destruct x as [s|s| |s m e]; cbn [okV]; try tauto; intros H; try (destruct H as [H _]); subst; reflexivity.
+Qed.
+
+(* the IEEE-754 facts about rounded + and - on those values that the termination proof uses; they are
+   NOT proved here for SpecFloat's SFadd / SFsub (monotonicity of round-to-nearest, no NaN, no -0.0) *)
+Record f64_rounding_facts : Prop := {
+  ff_add_ge : forall x w, okV x -> okV w -> SFltb (f64_add x w) x = false;
+  ff_sub_le : forall x w, okV x -> okV w -> SFltb x (f64_sub x w) = false;
+  ff_within_sub : forall M m w, okV M -> okV m -> okV w -> SFltb w (f64_sub M m) = true -> SFltb (f64_sub M w) m = false;
+  ff_within_add : forall M m w, okV M -> okV m -> okV w -> SFltb w (f64_sub M m) = true -> SFltb M (f64_add m w) = false;
+  ff_add_mono : forall x w w', okV x -> okV w -> okV w' -> SFltb w' w = false -> SFltb (f64_add x w') (f64_add x w) = false;
+  ff_sub_anti : forall x w w', okV x -> okV w -> okV w' -> SFltb w' w = false -> SFltb (f64_sub x w) (f64_sub x w') = false;
+  ff_add_ok : forall M m w, okV M -> okV m -> okV w -> SFltb w (f64_sub M m) = true -> okV (f64_add m w);
+  ff_sub_ok : forall M m w, okV M -> okV m -> okV w -> SFltb w (f64_sub M m) = true -> okV (f64_sub M w);
+  ff_gap_ok : forall M m, okV M -> okV m -> SFltb M m = false -> okV (f64_sub M m);
+  ff_sub_self : forall x, okV x -> SFltb (S754_zero false) (f64_sub x x) = false
+}.
+
+Lemma F64_round_laws : f64_rounding_facts -> round_laws F64arith okV rankV.
+Proof.
+  intros [F1 F2 F3 F4 F5 F6 F7 F8 F9 F10].
+  constructor; unfold leW; cbn [F64arith W w_ltb w_add w_sub w_zero]; auto.
+  - apply F64_order_laws_V.
+  - apply rankV_nonneg.
+  - apply rankV_mono.
+  - apply okV_nonneg.
+Qed.
+
+(* VnBest with the progress test on finite non-negative binary64 weights whose initial part loads are finite:
+   it never runs out of fuel beyond a (huge) bound -- given the rounding facts above *)
+Theorem vn_bestW_f64_terminates : f64_rounding_facts ->
+  forall ws p, Forall okV ws ->
+  (forall L, parts_loadW F64arith ws p (part_count p) = Ok L -> Forall okV L) ->
+  exists fuel0, forall fuel, (fuel0 <= fuel)%nat -> vn_bestW F64arith true fuel ws p <> OutOfFuel.
+Proof. intros FF. exact (vn_bestW_terminates F64arith okV rankV (F64_round_laws FF)). Qed.
+
+(* the tracked imbalance alone does not decrease strictly: 1e16 0.25 0.25 0.25 with parts 0 0 0 1.  The
+   weight 0.25 moves (1e16 - 0.25 = 1e16: absorbed above; 0.25 + 0.25 = 0.5 below), the largest load, the
+   number of parts holding it and the imbalance 1e16 - 0.5 = 1e16 all stay what they were. *)
+Example vnbest_f64_imbalance_not_strict :
+  let ws := map (fun b => f64_of_bits b) [4846369599423283200; 4598175219545276416; 4598175219545276416; 4598175219545276416]%N in
+  let crit := rev (sort_items_descW F64arith (items_ofW F64arith ws)) in
+  exists L L' p',
+    parts_loadW F64arith ws [0; 0; 0; 1]%N 2 = Ok L
+    /\ vb_stepW F64arith true crit ([0; 0; 0; 1]%N, L, 0%N) = inl (p', L', 1%N)
+    /\ p' <> [0; 0; 0; 1]%N
+    /\ maxW F64arith L' = maxW F64arith L
+    /\ f64_sub (maxW F64arith L') (minW F64arith L') = f64_sub (maxW F64arith L) (minW F64arith L).
+Proof.
+  cbv zeta. eexists _, _, _. split; [vm_compute; reflexivity|]. split; [vm_compute; reflexivity|].
+  split; [discriminate|]. split; vm_compute; reflexivity.
+Qed.
